@@ -55,6 +55,10 @@ func TestExplore(t *testing.T) {
 			ties += b.Ties
 		}
 		cnt[fmt.Sprintf("maxround_%d", mr)]++
+		if mr >= 3 {
+			cnt[fmt.Sprintf("late_n%d_mp%d_%s", len(ids), info.MaxParents, info.Density)]++
+		}
+		cnt[fmt.Sprintf("all_n%d_mp%d", len(ids), info.MaxParents)]++
 		if nb > 0 {
 			cnt["noBefore"]++
 		}
